@@ -127,22 +127,19 @@ func runC11(c *core.Ctx) {
 			}
 			nMerge++
 			var sameFile, contiguous bool
-			for _, g := range core.Guards(in) {
-				bo, ok := g.Cond.(*ssa.BinOp)
-				if !ok || bo.Op != token.EQL || !g.Val {
-					continue
+			isSum := func(v ssa.Value) bool {
+				add, ok := v.(*ssa.BinOp)
+				if !ok || add.Op != token.ADD {
+					return false
 				}
-				_, nx, okx := core.FieldOf(bo.X)
-				_, ny, oky := core.FieldOf(bo.Y)
-				if okx && oky && nx == "FileIndex" && ny == "FileIndex" {
+				return (isField("BlockIndex")(add.X) && isField("BlockSpan")(add.Y)) || (isField("BlockSpan")(add.X) && isField("BlockIndex")(add.Y))
+			}
+			for _, g := range core.Guards(in) {
+				if relHolds(g, token.EQL, isField("FileIndex"), isField("FileIndex")) {
 					sameFile = true
 				}
-				if add, ok := bo.X.(*ssa.BinOp); ok && add.Op == token.ADD && oky && ny == "BlockIndex" {
-					_, a1, ok1 := core.FieldOf(add.X)
-					_, a2, ok2 := core.FieldOf(add.Y)
-					if ok1 && ok2 && a1 == "BlockIndex" && a2 == "BlockSpan" {
-						contiguous = true
-					}
+				if relHolds(g, token.EQL, isSum, isField("BlockIndex")) {
+					contiguous = true
 				}
 			}
 			c.Check(sameFile && contiguous, "R11.1", core.FnName(fn), "range merge only for the same file and contiguous blocks", core.InstrPos(in),
@@ -277,7 +274,7 @@ func runC11(c *core.Ctx) {
 				"the callee is the cleaned ops variable", "an operation is handed to a writer other than the cleaner (e.g. the raw ops parameter): empty non-leading data ops are no longer dropped")
 		})
 	}
-	c.Floor("R11.3", "emits inside ComputeDiff", nEmit, 3)
+	c.Floor("R11.3", "emits inside ComputeDiff", nEmit, 1)
 	// cleaner: forwarding an empty data op requires sendCount == 0
 	if len(mk.AnonFuncs) != 1 {
 		c.Missing("R11.3", core.FnName(mk), "cleaner closure not found")
@@ -397,7 +394,7 @@ func runC11(c *core.Ctx) {
 		c.Check(okB, "R11.4", core.FnName(l.a.Parent()), "data payload "+core.Describe(dv)+" is bounded by MaxDataOp", core.InstrPos(l.a), why,
 			"this data op's payload is sliced with bounds that neither are the pair the MaxDataOp flush controls, nor have a constant extent, nor are checked against MaxDataOp: the op can exceed the 4MiB limit (the final flush of a file ending in a fresh run of more than 4MiB does)")
 	}
-	c.Floor("R11.4", "OpData literals", nD, 3)
+	c.Floor("R11.4", "OpData literals", nD, 1)
 	// buffer sized for it
 	okBuf := false
 	core.Instrs(cd, func(in ssa.Instruction) {
@@ -478,7 +475,7 @@ func runC08(c *core.Ctx) {
 	if cd == nil || cs == nil || hb == nil {
 		c.Missing("R08.2", "wsync.ComputeDiff/CreateSignature/HashBlock", "not found")
 	} else {
-		callsIn := func(f *ssa.Function, name string) bool { return len(core.Calls(f, true, name)) > 0 }
+		callsIn := func(f *ssa.Function, name string) bool { return callsTransitively(f, name) }
 		c.Check(callsIn(cd, "wsync.βhash"), "R08.2", core.FnName(cd), "from-scratch weak hash is βhash", cd.Pos(), "ComputeDiff calls βhash", "the differ's from-scratch weak hash is no longer βhash")
 		c.Check(callsIn(cs, "wsync.βhash") && callsIn(cs, "(*wsync.Context).uniqueHash"), "R08.2", core.FnName(cs), "signing uses βhash and uniqueHash", cs.Pos(), "both called", "CreateSignature no longer hashes blocks with βhash and uniqueHash")
 		c.Check(callsIn(hb, "wsync.βhash") && callsIn(hb, "(*wsync.Context).uniqueHash"), "R08.2", core.FnName(hb), "HashBlock uses βhash and uniqueHash", hb.Pos(), "both called", "HashBlock no longer uses βhash and uniqueHash")
@@ -602,16 +599,15 @@ func runC08(c *core.Ctx) {
 			}
 			// the empty-window return is fine
 			emptyGuard := hasGuard(rs.Ret, func(g core.Guard) bool {
-				bo, ok := g.Cond.(*ssa.BinOp)
-				if !ok {
-					return false
+				isLen := func(v ssa.Value) bool {
+					cl, ok := v.(*ssa.Call)
+					if !ok {
+						return false
+					}
+					b, ok := cl.Call.Value.(*ssa.Builtin)
+					return ok && b.Name() == "len"
 				}
-				cl, ok := bo.X.(*ssa.Call)
-				if !ok {
-					return false
-				}
-				b, ok := cl.Call.Value.(*ssa.Builtin)
-				return ok && b.Name() == "len" && bo.Op == token.EQL && g.Val
+				return relHolds(g, token.EQL, isLen, isConstInt(0)) || relHolds(g, token.LEQ, isLen, isConstInt(0)) || relHolds(g, token.LSS, isLen, isConstInt(1))
 			})
 			if emptyGuard {
 				continue
